@@ -262,6 +262,8 @@ class Frame:
         total_size = len(serialized_hl_packet)
         first_frag_size = \
             total_size % ZBNCP_LL_BODY_SIZE_MAX or ZBNCP_LL_BODY_SIZE_MAX
+        # The first fragment has to hold at least the 4 bytes HL header.
+        first_frag_size = max(first_frag_size, 4)
 
         fragments = []
         frag_idxs = range(first_frag_size, total_size, ZBNCP_LL_BODY_SIZE_MAX)
@@ -270,7 +272,8 @@ class Frame:
             if frag_nbr == 1:
                 frag = self._create_first_frag(first_frag_size)
             elif frag_nbr == self.count_fragments():
-                frag = self._create_last_frag(serialized_hl_packet)
+                idx = frag_idxs[frag_nbr - 2]
+                frag = self._create_last_frag(serialized_hl_packet[idx:])
             else:
                 idx = frag_idxs[frag_nbr - 2]
                 frag = self._create_frag(idx, serialized_hl_packet)
@@ -292,18 +295,17 @@ class Frame:
             self.hl_packet.header, self.hl_packet.data[:(frag_size - 4)])
         return Frame(ll_header, hl_packet)
 
-    def _create_last_frag(self, serialized_hl_packet):
+    def _create_last_frag(self, remaining_hl_packet):
         """Create the last fragment of a frame."""
         # Sequence flag and CRC8 are set later before sending frame over uart.
         ll_header = (
             LLHeader()
             .with_signature(Frame.signature)
-            .with_size(ZBNCP_LL_BODY_SIZE_MAX + 7)
+            .with_size(len(remaining_hl_packet) + 7)
             .with_type(t.TYPE_ZBOSS_NCP_API_HL)
             .with_flags(t.LLFlags.LastFrag)
         )
-        hl_packet = HLPacket(
-            None, serialized_hl_packet[-ZBNCP_LL_BODY_SIZE_MAX:])
+        hl_packet = HLPacket(None, remaining_hl_packet)
         return Frame(ll_header, hl_packet)
 
     def _create_frag(self, idx, serialized_hl_packet):
